@@ -94,7 +94,11 @@ def method(ex, base, name, e, st):
             n = ex.name_term(args[0])
             ex.split_raise(st, z3.Not(g.node(n)), "NetworkXError")
             mem = (lambda x: g.edge(x, n)) if name == "in_degree" else (lambda x: g.edge(n, x))
-            return ctx.card_of(mem, "deg")
+            ctx.local_sink = st.pc
+            try:
+                return ctx.card_of(mem, "deg")
+            finally:
+                ctx.local_sink = None
         if name == "add_edges_from":
             used("DiGraph.add_edges_from")
             ps = pairs_of(ex, args[0])
@@ -257,6 +261,14 @@ def method(ex, base, name, e, st):
         if name == "values" and base.items is not None:
             return [v for _, v in base.items]
         raise Unsupported("dict." + name)
+    if isinstance(base, NodeAttrView) and name == "get":
+        from pyvc.exec import MaybeType
+        args, _ = ex.args_of(e, st)
+        g = st.g(base.g)
+        n = ex.name_term(base.n)
+        if isinstance(args[0], StrLit) and args[0].s == "type" and len(args) == 1:
+            return MaybeType(z3.Select(g.hasty, n), z3.Select(g.ty, n))
+        raise Unsupported("attrs.get")
     # ---------------------------------------------------------------- strings
     if isinstance(base, NameV):
         args, _ = ex.args_of(e, st)
